@@ -1,0 +1,13 @@
+//go:build verif
+
+package cdcn
+
+import (
+	col "github.com/craterdog/go-collection-framework/v4/collection"
+)
+
+// verifSpawn reports that the scanner goroutine is about to be started and
+// verifEnd that it is about to end, to the monitor installed in the collection
+// package (see collection/verif_on.go).
+func verifSpawn() { col.VerifNotify(col.VerifSpawn, nil) }
+func verifEnd()   { col.VerifNotify(col.VerifEnd, nil) }
